@@ -5,7 +5,7 @@ class Target:
     """A function (or region) of /repo that is extracted and lowered on every run."""
 
     def __init__(self, name, file, locate, rules=(), loops=None, ghost=(), index=0, count=1,
-                 common=True, region_end=None, note='', marks=None, defers=None, pre_rules=()):
+                 common=True, region_end=None, note='', marks=None, defers=None, pre_rules=(), init_list=False):
         self.name = name
         self.file = file
         self.locate = locate
@@ -15,6 +15,7 @@ class Target:
         self.index = index
         self.count = count
         self.common = common
+        self.init_list = init_list    # constructor: turn the member-initialiser list `m(e), ...` into `this->m = (e);` statements
         self.pre_rules = list(pre_rules)   # rules applied before the DEFER lowering
         self.defers = defers          # dict(rettype=..., scoped_lock=(lock_fmt, unlock_fmt)) -> engine.extract.lower_defers
         self.marks = marks or {}      # textual loop-rule instrumentation (engine.extract.mark_loops)
